@@ -33,7 +33,7 @@ def fill_events(avail, out, kd, pf1, T):
 
 def run(pid, tier):
     out = C.Outcome(pid, tier)
-    out.rule = ("all small integer inputs of MC_Handoff (FillMin 972, Retime 729, Bump 324 in the quick grid) run through the real "
+    out.rule = ("all small integer inputs of MC_Handoff (FillMin 972, Retime 729, Bump 324 in the quick grid, 225 of them with charges within demand) run through the real "
                 "Parameters helpers, and the hand-off objects of every corpus run, validated against the relations of Handoff.tla; "
                 "distinct = distinct helper inputs + distinct (country, preset) hand-offs")
     r = C.run_tlc("MC_Handoff", cfg="MC_Handoff.cfg" if tier == "quick" else "MC_Handoff2.cfg", workers=1, timeout=1200)
@@ -70,7 +70,7 @@ def run(pid, tier):
                 ev = [dict(ev="Retime", m1=nums(c["m1"]), m2=nums(c["m2"]), r=nums(rec["out"]))]
         else:
             ev = [dict(ev="Bump", b=nums(c["b"]), f=nums(c["f"]), maxB=nums(c["maxB"]), maxF=nums(c["maxF"]),
-                       b2=nums(rec["out"]["b2"]), f2=nums(rec["out"]["f2"]))]
+                       b2=nums(rec["out"]["b2"]), f2=nums(rec["out"]["f2"]), dom=bool(c["dom"]))]
         traces.append(dict(hdr=dict(src="generated", kind=c["k"], case=c, out=rec["out"]), ev=ev))
     ngen = len(traces)
     for run_ in corpus.runs(tier):
@@ -88,7 +88,7 @@ def run(pid, tier):
         if bp:
             a = bp["args"]
             ev.append(dict(ev="Bump", b=nums(a["biofuel"]), f=nums(a["feed"]), maxB=nums(a["max_biofuel"]), maxF=nums(a["max_feed"]),
-                           b2=nums(bp["out_biofuel"]), f2=nums(bp["out_feed"])))
+                           b2=nums(bp["out_biofuel"]), f2=nums(bp["out_feed"]), dom=True))
         if ev:
             traces.append(dict(hdr=dict(src="corpus", cc=run_["job"]["cc"], preset=run_["job"]["preset"]), ev=ev))
     fails = tracecheck.validate("Trace_Handoff", "Trace_Handoff.cfg", traces, out)
